@@ -58,11 +58,14 @@ def _lib_series(tab, nb, nparams, name, h0_offdiag_absent=False):
 
 def _dense(v, di, dj):
     from pymablock.series import one, zero
+    from scipy.sparse.linalg import LinearOperator
 
     if v is None or v is zero:
         return symc.zeros(di, dj)
     if v is one:
         return symc.eye(di)
+    if isinstance(v, LinearOperator):  # linear-operator mode: denote the operator by its action on the identity
+        return np.asarray(v @ np.eye(dj), dtype=object)
     return np.asarray(v, dtype=object)
 
 
@@ -87,7 +90,7 @@ def _compare(rec, cfg, algorithm, tables, dims, nparams, scope_lib, scope_ref, m
     ref = dslref.Reference(algorithm, {nm: inp(nm) for nm in tables}, dims, nparams, scope=scope_ref, zero=zero, one=one)
     lib_inputs = {nm: _lib_series(tables[nm], nb, nparams, nm, h0_offdiag_absent) for nm in tables}
     try:
-        series, _ = series_computation(lib_inputs, algorithm=algorithm, scope=dict(scope_lib))
+        series, lo_series = series_computation(lib_inputs, algorithm=algorithm, scope=dict(scope_lib))
     except Exception as e:
         from .herm import library_exception_info
 
@@ -119,7 +122,10 @@ def _compare(rec, cfg, algorithm, tables, dims, nparams, scope_lib, scope_ref, m
         except dslref.Cycle:
             ref_cycle = True
         try:
-            got = series[nm][idx]
+            # Declared products exist twice: over plain values and over LinearOperator-wrapped values. The compiled code of
+            # a block in linear-operator mode reads the wrapped one, so that is the one denoted here for such a block.
+            use_lo = bool(scope_lib["use_linear_operator"][idx[0], idx[1]]) and nm in ref.products
+            got = (lo_series if use_lo else series)[nm][idx]
             lib_err = None
         except RuntimeError as e:
             lib_err = e
@@ -435,6 +441,9 @@ def configs(tier, seed):
         for dims in ([1, 1], [2, 1]):
             jobs.append(("vf.props.dsl", "c09_generated", dict(generated=True, dims=dims, max_order=2, n_series=3, n_products=2, features=feats_all,
                                                                seeds=list(range(base + k, base + k + chunk)), schedule=["asc", "desc", "rand7"][(k // chunk) % 3])))
+    for dims in ([1, 1], [1, 2], [1, 1, 2]):
+        for sched in ("asc", "desc", "rand3"):
+            jobs.append(("vf.props.dsl", "c09_handwritten", dict(handwritten=True, program="two_inputs", dims=dims, max_order=2, schedule=sched, linear_operator=True)))
     for name in HANDWRITTEN:
         for dims in ([1, 1], [2, 1], [1, 1, 1]):
             for sched in ("asc", "desc", "rand5"):
@@ -489,7 +498,29 @@ def c09_docstring(cfg):
 # ------------------------------------------------------------------------------------------------
 # (c) hand-written programs whose `hermitian` declarations are TRUE (products X^dagger X, X^dagger B X), `lower`, nested calls
 
+HANDWRITTEN_INPUTS = {"two_inputs": ["A", "B"]}
+
 HANDWRITTEN = {
+    "two_inputs": '''def program():
+    with "C":
+        "A" - "B" / 2
+
+    with "D":
+        "A" + "C @ B" + "B".adj
+
+    with "E":
+        start = 0
+        hermitian
+        "D @ D" / 4 + f("C") - "A".adj
+
+    with "C @ B":
+        pass
+
+    with "D @ D":
+        pass
+
+    return "D", "E"
+''',
     "hermitian_products": '''def program():
     with "X":
         start = 0
@@ -585,7 +616,7 @@ def c09_handwritten(cfg):
     nb = len(dims)
     src = HANDWRITTEN[cfg["program"]]
     fn = _make_function(src, "program")
-    tables = _inputs(["A"], dims, cfg.get("nparams", 1), cfg["max_order"])
+    tables = _inputs(HANDWRITTEN_INPUTS.get(cfg["program"], ["A"]), dims, cfg.get("nparams", 1), cfg["max_order"])
 
     def f(x, index):
         x = x[index] if isinstance(x, (BlockSeries, dslref.SeriesView)) else x
@@ -598,7 +629,10 @@ def c09_handwritten(cfg):
         return zero if x is zero else -x
 
     scope = {"f": f, "g": g}
-    scope_lib = dict(scope, use_linear_operator=np.zeros((nb, nb), dtype=bool))
+    ulo = np.zeros((nb, nb), dtype=bool)
+    if cfg.get("linear_operator"):
+        ulo[-1, -1] = True  # implicit-mode wiring: the last diagonal block is computed with LinearOperators
+    scope_lib = dict(scope, use_linear_operator=ulo)
     r_ = _compare(rec, dict(cfg, source=src), fn, tables, dims, cfg.get("nparams", 1), scope_lib, scope, cfg["max_order"], cfg.get("schedule", "asc"), f"handwritten:{cfg['program']}")
     if r_ == "discarded":
         rec.guard("handwritten_program_is_well_founded", False, "the reference found a cycle")
